@@ -140,6 +140,9 @@ func VerifH05aAvailability() {
 		p = &First{}
 	default:
 		p = &Header{Names: []string{"X-Key"}}
+		// Header falls back to a package-level round-robin cursor when the request lacks the header:
+		// start it from a known value (natively several vectors run in one process)
+		roundRobinPolicier.robin = 0
 	}
 	if pk == 3 || pk == 4 || pk == 6 {
 		// hash policies with a non-empty key are VerifH05aHashed's subject (hash value summarised);
